@@ -87,6 +87,12 @@ Definition dec_nth_root := dec_nth_root_with troot.
 Definition TruncRoot (n y r : Z) : Prop :=
   Z.abs r ^ n <= Z.abs y < (Z.abs r + 1) ^ n /\ (0 <= y -> 0 <= r) /\ (y <= 0 -> r <= 0).
 
+(* q is the exact value of (x/ONE)^e in subunits: x^e / ONE^(e-1) for e >= 1, 1 for e = 0,
+   ONE^(|e|+1) / x^|e| for e < 0 (x <> 0) *)
+Definition ExactPow (f : fmt) (x e q : Z) : Prop :=
+  (1 <= e /\ q * one f ^ (e - 1) = x ^ e) \/ (e = 0 /\ q = one f) \/
+  (e < 0 /\ x <> 0 /\ q * x ^ (- e) = one f ^ (- e + 1)).
+
 (* the known finding: exp = i64::MIN with base 1 or -1 *)
 Definition KnownPowi (f : fmt) (x exp : Z) : Prop := exp = I64_MIN /\ (x = one f \/ x = - one f).
 
